@@ -113,6 +113,39 @@ def resolve(name, via):
     return getattr(M, via)(distance=name).distance_fn
 
 
+def save_load_resolution(name, seed):
+    import os
+    import tempfile
+    import opfython.core.opf as O
+    from mc.runner import scratch_dir
+    other = "manhattan" if name != "manhattan" else "euclidean"
+    d = tempfile.mkdtemp(prefix="c06-", dir=scratch_dir())
+    try:
+        a = O.OPF(distance=name)
+        path = os.path.join(d, "m.pkl")
+        a.save(path)
+        b = O.OPF(distance=other)
+        b.load(path)
+        if b.distance != name:
+            return "after loading a model saved with distance=%r the option reads %r" % (name, b.distance)
+        V = grids.vectors(classes_for(name)[0], seed, "quick", dmax=2)
+        for dd, vs in V.items():
+            for x in vs[:6]:
+                for y in vs[-6:]:
+                    try:
+                        got = b.distance_fn(np.array(x, dtype=float), np.array(y, dtype=float))
+                    except Exception as ex:
+                        got = "raised %r" % (ex,)
+                    p = agree(name, got, x, y)
+                    if p:
+                        return ("OPF(distance=%r).save(); OPF(distance=%r).load(): option says %r but "
+                                "distance_fn%s %s" % (name, other, b.distance, (list(x), list(y)), p))
+        return None
+    finally:
+        import shutil
+        shutil.rmtree(d, ignore_errors=True)
+
+
 def candidates():
     """registry keys U reference names U names quoted in the setter's error message."""
     import opfython.math.distance as D
@@ -176,9 +209,15 @@ def run(shard, seed):
         cl = classes_for(name)[0]
         vals = grids.values(cl if cl != "S" else "P", seed, "quick")
         for L in lengths(tier):
+            pairs = []
             for (a1, b1, a2, b2) in ((3, 1, 5, 2), (7, 0, 2, 3), (1, 4, 1, 0)):
-                x = [vals[(t * a1 + b1) % len(vals)] for t in range(L)]
-                y = [vals[(t * a2 + b2) % len(vals)] for t in range(L)]
+                pairs.append(([vals[(t * a1 + b1) % len(vals)] for t in range(L)],
+                              [vals[(t * a2 + b2) % len(vals)] for t in range(L)]))
+            if name in axioms.R_CLASS or name in axioms.N_CLASS:
+                # large norm, tiny difference: formulas rearranged as |x|^2 - 2<x,y> + |y|^2 cancel here
+                xs = [1000.0 + abs(vals[(t * 3 + 1) % len(vals)]) for t in range(L)]
+                pairs.append((xs, [v + 1e-4 * (((t * 5) % 7) - 3) / 3.0 for t, v in enumerate(xs)]))
+            for x, y in pairs:
                 try:
                     got = fn(np.array(x, dtype=float), np.array(y, dtype=float))
                 except Exception as ex:
@@ -230,7 +269,16 @@ def run(shard, seed):
                 if done:
                     break
             res.outcome((name, via))
-        res.sample({"metric": name, "resolved_via": MODEL_KINDS}, 1)
+        # the identifier must still resolve to its own closed form after a save / load round trip
+        # into an object that was constructed with ANOTHER identifier
+        prob = save_load_resolution(name, seed)
+        res.transitions += 2
+        if prob:
+            res.violations.append({
+                "check": "registry", "program": {"metric": name, "via": "save-load", "x": [], "y": []},
+                "observed": prob, "allowed": "distance option and distance function agree after load",
+                "explanation": prob, "fingerprint": "metric %s via model option: after save/load" % name})
+        res.sample({"metric": name, "resolved_via": MODEL_KINDS + ["save/load into another identifier"]}, 1)
     else:
         import opfython.math.distance as D
         import opfython.core.opf as O
